@@ -433,12 +433,22 @@ fn run_worker(
     run_worker_capped(prop_id, tier, from, to, step, 1, agg)
 }
 
-/// A watchdog timeout is only reported after the case, run alone in a fresh process with 6x the cap, times out again
-/// (a machine under memory pressure can make a millisecond case burn seconds of system time).
+/// A watchdog timeout is only reported after the case, run alone in a fresh process with 3x the cap, times out again
+/// (a machine under memory pressure can make a millisecond case burn seconds of system time). Once three timeouts
+/// have been confirmed in this run the machine is evidently not the cause, and further expiries are recorded directly
+/// (a change that makes every depth of a ladder hang would otherwise cost cap x 4 per case).
 fn confirm_timeout(prop: &dyn Prop, tier: Tier, idx: u64, agg: &Mutex<Agg>) {
-    match run_worker_capped(prop.id(), tier, idx, idx + 1, true, 6, agg) {
+    static CONFIRMED: AtomicU64 = AtomicU64::new(0);
+    if CONFIRMED.load(Ordering::SeqCst) >= 3 {
+        agg.lock().unwrap().crashes.push((idx, "timeout (watchdog)".into()));
+        return;
+    }
+    match run_worker_capped(prop.id(), tier, idx, idx + 1, true, 3, agg) {
         WorkerEnd::Done | WorkerEnd::Recycle { .. } => {}
-        WorkerEnd::Timeout { .. } => agg.lock().unwrap().crashes.push((idx, "timeout (watchdog)".into())),
+        WorkerEnd::Timeout { .. } => {
+            CONFIRMED.fetch_add(1, Ordering::SeqCst);
+            agg.lock().unwrap().crashes.push((idx, "timeout (watchdog)".into()))
+        }
         WorkerEnd::Died { status, .. } => agg.lock().unwrap().crashes.push((idx, status)),
     }
 }
